@@ -200,3 +200,54 @@ mod t {
         assert_eq!(read_octets(&mut r, true, "x").unwrap().len(), 200);
     }
 }
+
+/// the subjectPublicKey BIT STRING contents (without the unused-bits octet) of an X.509 certificate
+pub fn spki_key_bits(cert_der: &[u8]) -> PResult<Vec<u8>> {
+    let mut r = R::new(cert_der);
+    let cert = expect(&mut r, UNIV_SEQ, false, "Certificate")?;
+    let mut c = R::new(&cert.content);
+    let tbs = expect(&mut c, UNIV_SEQ, false, "TBSCertificate")?;
+    let mut t = R::new(&tbs.content);
+    let mut first = read_tlv(&mut t, false)?;
+    if first.id == ctx(0) {
+        // explicit version present; next is the serial number
+        first = read_tlv(&mut t, false)?;
+    }
+    let _serial = first;
+    let _sigalg = read_tlv(&mut t, false)?;
+    let _issuer = read_tlv(&mut t, false)?;
+    let _validity = read_tlv(&mut t, false)?;
+    let _subject = read_tlv(&mut t, false)?;
+    let spki = expect(&mut t, UNIV_SEQ, false, "SubjectPublicKeyInfo")?;
+    let mut s = R::new(&spki.content);
+    let _alg = read_tlv(&mut s, false)?;
+    let bits = expect(&mut s, 0x03, false, "subjectPublicKey")?;
+    if bits.content.is_empty() {
+        return Err("empty BIT STRING".into());
+    }
+    Ok(bits.content[1..].to_vec())
+}
+
+pub fn pem_to_der(pem: &str) -> Vec<u8> {
+    let b64: String = pem.lines().filter(|l| !l.starts_with("-----")).collect();
+    let mut out = vec![];
+    let mut acc: u32 = 0;
+    let mut n = 0;
+    for ch in b64.bytes() {
+        let v = match ch {
+            b'A'..=b'Z' => ch - b'A',
+            b'a'..=b'z' => ch - b'a' + 26,
+            b'0'..=b'9' => ch - b'0' + 52,
+            b'+' => 62,
+            b'/' => 63,
+            _ => continue,
+        } as u32;
+        acc = (acc << 6) | v;
+        n += 6;
+        if n >= 8 {
+            n -= 8;
+            out.push((acc >> n) as u8);
+        }
+    }
+    out
+}
